@@ -785,7 +785,7 @@ def sessions(run, thorough, nproc, wk):
 
     def child(chunk):
         p = subprocess.run([sys.executable, "-m", "harness.c10_session"], input=json.dumps(chunk), capture_output=True,
-                           text=True, timeout=900, cwd=core.VERIF)
+                           text=True, timeout=core.tscale(900), cwd=core.VERIF)
         if p.returncode != 0:
             raise MachineryError("session runner failed: %s" % p.stderr[-1500:])
         d = json.loads(p.stdout)
